@@ -907,6 +907,24 @@ def _cmp_exc(name, i, m):
     return None if num_close(i["v"], m["v"]) else f"{name}: {i['v']} vs {m['v']}"
 
 
+def fragile(case, ir, mr):
+    """a margin over ZERO cards (`cards` = 0: no population, outside every property's quantifier) is x/0: nan when the
+    float numerator is exactly 0, +-inf when it is not -- and whether a numerator such as 8/(2*0.6666666666666666) - 6
+    is exactly 0 is a matter of rounding (float: 0, exact on the same doubles: 1e-15).  Both sides non-finite: not
+    compared (DESIGN.md 14)."""
+    if case.get("op") != "margin" or case.get("cards") != 0:
+        return False
+    try:
+        i, m = ir["margin"], mr["margin"]
+        if i.get("st") != "ok" or m.get("st") != "ok":
+            return False
+        nonfin = lambda v: (isinstance(v, str) and v.strip("-+") in ("inf", "nan")) or \
+            (isinstance(v, float) and (math.isnan(v) or math.isinf(v)))
+        return bool(nonfin(i["v"]) and nonfin(m["v"]))
+    except Exception:  # noqa
+        return False
+
+
 def compare(case, ir, mr):
     if ir.get("st") != mr.get("st"):
         return f"status differs: impl={ir.get('st')}/{ir.get('err')} model={mr.get('st')}/{mr.get('err')}"
